@@ -193,6 +193,7 @@ func c05Work(c *engine.Ctx) {
 	seeds := append(append([]string{}, seedsJS...), c18ExtraSeeds...)
 	for _, s := range seeds {
 		c.EditBall([]byte(s), alphaJSCore, func(in []byte) { all(in) })
+		c.ByteSweep([]byte(s), false, func(in []byte) { all(in); c.Count("byte-sweep", 1) })
 	}
 	// pairs of seeds joined by every separator (statement interactions, ASI after printing)
 	k := 0
